@@ -1656,8 +1656,9 @@ func ruleRefusePure(w *World, r *RuleResult) {
 			}
 			clean := true
 			var bad *Event
-			for i := range p.Events {
-				e := &p.Events[i]
+			// what the path did, including the bodies of the loops it ran through
+			evs := withLoopBodies(paths, p)
+			for _, e := range evs {
 				if e.Kind == "store" {
 					root := e.LV
 					for root.Op == "sel" || root.Op == "elem" {
@@ -1683,4 +1684,36 @@ func ruleRefusePure(w *World, r *RuleResult) {
 		}
 	}
 	d.flush()
+}
+
+// withLoopBodies: the events of path p together with the events of one
+// iteration of every loop p runs through (a path that enters and leaves a loop
+// is cut at the header, so the body's effects are on the back-edge fragments).
+func withLoopBodies(paths []*Path, p *Path) []*Event {
+	var out []*Event
+	for i := range p.Events {
+		e := &p.Events[i]
+		out = append(out, e)
+		if e.Kind != "enterloop" {
+			continue
+		}
+		h := e.Res.C
+		for _, q := range paths {
+			if q.End != "backedge" || q.Events[len(q.Events)-1].Res.C != h {
+				continue
+			}
+			in := false
+			for j := range q.Events {
+				f := &q.Events[j]
+				if f.Kind == "enterloop" && f.Res.C == h {
+					in = true
+					continue
+				}
+				if in && f.Kind != "backedge" {
+					out = append(out, f)
+				}
+			}
+		}
+	}
+	return out
 }
